@@ -311,6 +311,9 @@ class Runner(object):
             if isinstance(svc, TimerService):
                 self.timer_service = svc
         assert self.server is not None and self.timer_service is not None
+        # twistd starts the parent service, which starts every child in the order makeService added them: the Server's own
+        # startService runs at every (re)start, before the first firing of the timer (the web endpoint is not started: no sockets)
+        self.server.startService()
         # the factory that makeService's web server would hand connections to
         self.factory = None
         for svc in self.service:
